@@ -46,6 +46,8 @@ def _case(draw, size=1):
     spec.update(draw(gens.route()))
     end = max([n[3] for n in notes] + [m[1] for m in meta] + [0])
     spec["pad"] = draw(st.one_of(st.none(), st.just(end + draw(st.integers(0, 30)))))
+    if draw(st.integers(0, 7)) == 0:
+        spec["double"] = draw(st.sampled_from(["self", "fresh"]))     # the material twice: one message object, two positions
     steps = draw(st.one_of(
         st.sampled_from([[48], [24], [12], [16], [48, 24], [12, 16], [24, 16], [7], [5, 3], [8, 12], [48, 16], [6, 4]]),
         st.lists(st.sampled_from(STEP_POOL), min_size=1, max_size=4)))
